@@ -156,12 +156,15 @@ class Loop:
         activations = self._activations
         while activations:
             now, pending = activations.pop()
-            self.time = now
-            self.turn = 0
-            self._pending = pending
             while pending:
                 activation = pending.popleft()
                 if activation:
+                    # Only advance the clock for a time step in which anything runs:
+                    # activations that have been revoked do not make time pass.
+                    if self._pending is not pending:
+                        self.time = now
+                        self.turn = 0
+                        self._pending = pending
                     self.turn += 1
                     self.activity = activation.target
                     self._run_coroutine(activation.target, activation.signal)
